@@ -136,8 +136,10 @@ def check_derive_census(run, L, path):
             nm = f.split(' @ ')[0]
             if '::_::<impl serde::' in nm or nm.startswith(('core::', 'std::', 'alloc::', '<core::', '<std::', '<alloc::', 'serde', '<serde')):
                 continue
+            if 'impl serde::Deserialize' in nm or 'impl serde::Serialize' in nm or ' as serde::de::Visitor' in nm:
+                continue        # the (hand-written) serde impl of a field's type: checked under that type
             foreign.add('inlines ' + nm)
-    run.ob(key, len(roots) >= 2 and not foreign, rule='K8 derive census', expected='derive-generated code of %s calls only serde\'s traits and its own generated items' % path.split('::')[-1],
+    run.ob(key, len(roots) >= 1 and not foreign, rule='K8 derive census', expected='derive-generated code of %s calls only serde\'s traits and its own generated items' % path.split('::')[-1],
            found=sorted(foreign)[:4] or '%d generated functions' % len(roots))
 
 
